@@ -156,8 +156,11 @@ def run(ctx):
             # whole seconds only: decoding to nanoseconds goes through float64, sub-second instants far from the epoch
             # are not exactly representable (an artefact of the input, not of emsarray)
             tvals = numpy.arange(nt, dtype='f8') * (rng.choice([1, 2, 30]) if period == 'seconds' else rng.choice([1, 2, 0.5, 0.25]))
+            # CF calendar names are case insensitive; for dates after 1582 these all name the same calendar
+            cal = ['proleptic_gregorian', 'standard', 'gregorian', 'GREGORIAN', 'Standard', 'Proleptic_Gregorian'][n % 6] if f[0] > 1600 else 'proleptic_gregorian'
+            ctx.count(f'calendar spelled:{cal}')
             ds = ds.assign_coords({tname: xarray.DataArray(tvals, dims=['record'], attrs={
-                'units': units, 'calendar': 'proleptic_gregorian', 'standard_name': 'time', 'coordinate_type': 'time'})})
+                'units': units, 'calendar': cal, 'standard_name': 'time', 'coordinate_type': 'time'})})
             # cell bounds of the time axis (CF 7.1): none, inheriting the coordinate's units, or carrying units of their own
             tb = rng.choice(['none', 'none', 'inherit', 'own_units'])
             if tb != 'none':
